@@ -142,7 +142,11 @@ func (x *Exec) lookupIdent(env *Env, c *Clause, name string) (SymVal, types.Type
 	if name == "idx" || name == "rangelen" {
 		// range index of the loop whose head is the current block
 		fr := x.rootFrame(env.st)
-		if li := x.loops[fr.blk]; li != nil && li.rangeIdx != nil {
+		li := x.curLoop
+		if li == nil {
+			li = x.loops[fr.blk]
+		}
+		if li != nil && li.rangeIdx != nil {
 			if name == "idx" {
 				ri, ok := fr.locals[li.rangeIdx]
 				if !ok {
@@ -486,7 +490,7 @@ func (x *Exec) evalIndex(env *Env, c *Clause, e *Expr) (SymVal, types.Type) {
 		switch u := types.Unalias(bt).Underlying().(type) {
 		case *types.Slice:
 			k := x.elemHeapKey(u.Elem())
-			return Select(Select(x.heap(env.st, k), SlBase(b)), Add(SlOff(b), i)), u.Elem()
+			return Select(Select(x.heap(env.st, k), SlBase(b)), SlIdx(b, i)), u.Elem()
 		case *types.Map:
 			_, vk, _ := x.mapHeapKeys(u)
 			return Select(Select(x.heap(env.st, vk), b), i), u.Elem()
